@@ -6,17 +6,17 @@ import random
 from .base import Result, V
 
 MODULES = ["TickitModel.Props.C15"]
-THEOREMS = ["bus_exactly_once_in_order", "log_no_handlers", "resubscribe_duplicates", "topic_injective", "topic_in_ne_out"]
+THEOREMS = ["bus_exactly_once_in_order", "produced_is_logged", "reaction_is_logged", "log_no_handlers", "resubscribe_duplicates", "topic_injective", "topic_in_ne_out"]
 ANCHORS = ["src/tickit/core/state_interfaces/internal.py", "src/tickit/utils/topic_naming.py", "src/tickit/utils/singleton.py"]
 TECHNIQUE = "Lean 4 theorems (invariant over all subscribe/produce histories with re-entrant stratified handlers; topic-name injectivity over constants regenerated from the code) + exhaustive/seeded differential run of InternalStateServer against the model"
 LEVEL_TEXT = ("Full-strength theorem over the bus model: for every history of subscribe/produce operations with handlers that publish "
-              "re-entrantly to other (higher-ranked) topics and every (consumer, topic) subscribed once, each consumer has received exactly "
+              "re-entrantly to other topics (of higher rank than the topic of the value they react to - possibly topics their own consumer subscribes to) and every (consumer, topic) subscribed once, each consumer has received exactly "
               "the topic's log, in order, once, and nothing from other topics; necessity of the subscribe-once hypothesis is proved by a "
-              "counterexample theorem. Topic injectivity is proved over Gen/Constants.lean, which is re-extracted from topic_naming.py on "
+              "counterexample theorem; with enough fuel for the re-entrancy depth nothing is dropped (every produced value and every handler reaction is in its topic's log). Topic injectivity is proved over Gen/Constants.lean, which is re-extracted from topic_naming.py on "
               "every run, so colliding affixes break the proof. The model is tied to internal.py by differential operation sequences "
               "(exhaustive up to 4/5 operations over 2 topics x 2 consumers, with and without re-entrant handlers, plus seeded longer ones).")
 LEVEL_NOTE = "Trusts: Lean kernel; hand-written bus model; asyncio inline-await semantics; Python set iteration order is abstracted (only per (consumer, topic) sequences are compared)."
-ASSUMPTIONS = ["handlers publish only to topics of higher rank than any topic their consumer subscribes to (the reading of 'other topics')",
+ASSUMPTIONS = ["a handler reacting to a value that arrived on topic T publishes only to topics of higher rank than T (the reading of 'other topics'); it may publish to topics its own consumer subscribes to",
                "a (consumer, topic) pair is subscribed once", "handlers do not subscribe"]
 
 
@@ -62,18 +62,28 @@ def per_topic(seq):
 
 
 def within_hypotheses(ops, handlers, rank):
+    """subscribe-once, and every handler reaction to a value that arrived on topic T
+    publishes only to topics of higher rank than T (values identify their topic here)"""
     subs = {}
+    origin = {}
     for op in ops:
         if op["o"] == "sub":
             for T in op["topics"]:
                 if T in subs.setdefault(op["k"], []):
                     return False
                 subs[op["k"]].append(T)
+        else:
+            origin[op["v"]] = op["T"]
     for k, v, pubs in handlers:
+        for T2, v2 in pubs:
+            origin[v2] = T2
+    for k, v, pubs in handlers:
+        T = origin.get(v)
+        if T is None:
+            continue
         for T2, _ in pubs:
-            for T in subs.get(k, []):
-                if not rank[T] < rank[T2]:
-                    return False
+            if not rank[T] < rank[T2]:
+                return False
     return True
 
 
@@ -115,23 +125,21 @@ def gen_case(rng, n_ops, topics, n_cons, reentrant=True, force_ok=True):
             val += 1
             ops.append({"o": "pub", "T": rng.choice(topics), "v": val})
     if reentrant:
-        # handlers: consumer k reacting to value v publishes to higher-ranked topics than all it subscribes to
+        # handlers: consumer k reacting to value v (which arrived on topic origin[v]) publishes to
+        # topics of higher rank than that topic - possibly one it subscribes to itself
+        origin = {op["v"]: op["T"] for op in ops if op["o"] == "pub"}
         nxt = 100
-        for k in range(n_cons):
-            top = max([rank[T] for T in subs.get(k, [])], default=-1)
-            higher = [T for T in topics if rank[T] > top] if force_ok else topics
-            if not higher:
-                continue
-            for v in range(1, val + 1):
-                if rng.random() < 0.5:
-                    nxt += 1
-                    handlers.append([k, v, [[rng.choice(higher), nxt]]])
-            # second-level reactions
-            for hv in range(101, nxt + 1):
-                if rng.random() < 0.3:
-                    nxt += 1
-                    handlers.append([k, hv, [[rng.choice(higher), nxt]]])
-                    break
+        for level in range(2):
+            for k in range(n_cons):
+                for v, T in list(origin.items()):
+                    if T not in subs.get(k, []) or any(h[0] == k and h[1] == v for h in handlers):
+                        continue
+                    higher = [T2 for T2 in topics if rank[T2] > rank[T]] if force_ok else topics
+                    if higher and rng.random() < (0.5 if level == 0 else 0.3):
+                        nxt += 1
+                        T2 = rng.choice(higher)
+                        handlers.append([k, v, [[T2, nxt]]])
+                        origin[nxt] = T2
     return ops, handlers, rank
 
 
